@@ -6,12 +6,12 @@ HERE = os.path.dirname(os.path.abspath(__file__))
 CLAIMED = {
  "C04": dict(
    design="5.2",
-   technique="deterministic simulation: real fit() on Dask arrays under a seeded simulated scheduler (task order, placement, copy-vs-share, chunking as injected faults), differential oracle vs in-memory fit",
+   technique="deterministic simulation: real fit() on Dask arrays under a seeded simulated scheduler (task order, stalls, worker placement, copy-vs-share, and - in the threads model - seeded pre-emption of concurrently running tasks at line and bytecode granularity; chunking and input forms as injected configurations), differential oracle vs in-memory fit",
    text="Seeded exploration: every run executes the repository's real Dask training path under SimScheduler (seeded task order / stalls / worker placement / serialisation isolation / row and feature chunking) and compares model, criterion and thresholded stop with the in-memory fit of the same tree, plus agreement between the three executor models; all row compositions for n<=5 (thorough n<=7) are enumerated. Sampling, not proof; appropriate because the property quantifies over schedules and chunkings that no finite test fixes.",
-   note="Trusted: SimScheduler as a model of Dask's synchronous/threaded, multiprocessing and distributed executors; cloudpickle as wire format; in-memory path as reference; tolerance 1e-8 (1e-12 between executor models); near-tie / near-threshold / degenerate-variance cases are skipped and counted."),
+   note="Trusted: SimScheduler as a model of Dask's synchronous, threaded (real threads pre-empted under a seeded baton), multiprocessing and distributed executors; cloudpickle as wire format; in-memory path as reference; tolerance 1e-8 (1e-12 between executor models); near-tie / near-threshold / degenerate-variance cases are skipped and counted."),
  "C12": dict(
    design="5.3",
-   technique="deterministic simulation: real ISV/JFA/i-vector fit() on Dask bags under a seeded simulated scheduler (partition layout, task order, placement, serialisation isolation as injected faults), differential oracle vs list fit",
+   technique="deterministic simulation: real ISV/JFA/i-vector fit() on Dask bags under a seeded simulated scheduler (partition layout, task order, placement, serialisation isolation, seeded thread pre-emption as injected faults), differential oracle vs list fit",
    text="Seeded exploration: every run trains ISV, JFA or the i-vector extractor from a dask.bag with an explicit partition layout (empty, singleton, class-mixing partitions, unsorted labels, every partition count) under SimScheduler and compares U/V/D or T/sigma with the in-memory list fit of the same tree and across the three executor models; every partition count 1..N for N<=5 (thorough N<=7) is enumerated. Sampling, not proof.",
    note="Trusted: SimScheduler as a model of Dask executors; cloudpickle as wire format; list fit as reference; generated statistics have count >= 0.1 per component so a dropped/duplicated partition is far above the 1e-8 tolerance."),
  "C02": dict(
@@ -90,7 +90,7 @@ def main():
         }],
         "checks": checks,
         "not_applicable": na,
-        "notes": "Exit codes: 0 property held on everything explored (KNOWN-FINDING lines possible), 1 VIOLATION with replay file, 2 harness error (never a VIOLATION). VERIF_SEED selects the master seed, VERIF_TIER/--tier the depth, VERIF_REPO (default /repo) the tree under test, VERIF_WORKERS the pool size. Two genuine defects were repaired by 'fix:' commits in /repo (see known_findings.json 'fixed').",
+        "notes": "Executor models: shared, isolated, placed(W), threads(T) (sys.monitoring LINE/INSTRUCTION pre-emption, store-point hunting). Exit codes: 0 property held on everything explored (KNOWN-FINDING lines possible), 1 VIOLATION with replay file, 2 harness error (never a VIOLATION). VERIF_SEED selects the master seed, VERIF_TIER/--tier the depth, VERIF_REPO (default /repo) the tree under test, VERIF_WORKERS the pool size. Two genuine defects were repaired by 'fix:' commits in /repo (see known_findings.json 'fixed').",
     }
     with open(os.path.join(HERE, "MANIFEST.json"), "w") as f:
         json.dump(m, f, indent=1)
